@@ -158,6 +158,8 @@ package ast
 // dupFree: t1.Get(taskName) was asked and said "absent"; excluded: the exclude list contains the name;
 // varsDone: the include statement's vars were merged into the copy.
 //@ ghost var dupFree bool scratch
+//@ ghost fact nsDone(d *Dep)
+//@ ghost fact nsDoneC(c *Cmd)
 //@ ghost var added bool scratch
 //@ ghost var reMatched bool scratch
 //@ ghost var reTried bool scratch
@@ -183,6 +185,13 @@ package ast
 //@   site taskNameWithNamespace#1 requires arg0 == dep.Task && arg1 == include.Namespace     -- deps stay in the file   [C08]
 //@   site taskNameWithNamespace#2 requires arg0 == cmd.Task && arg1 == include.Namespace     -- so do task: calls       [C08]
 //@   site taskNameWithNamespace#3 requires arg1 == include.Namespace                         -- and aliases             [C08]
+// EVERY entry of the task that names a task - dependency, task call, deferred task call alike - is re-named: none is
+// left pointing at a like-named task of another file (or at nothing: a deferred call that is not found is dropped
+// silently when it runs)
+//@   site taskNameWithNamespace#1 ghost set nsDone(dep)
+//@   site taskNameWithNamespace#2 ghost set nsDoneC(cmd)
+//@   loop 1 invariant forall k {task.Deps[k]} :: 0 <= k && k < $i && task.Deps[k] != nil && task.Deps[k].Task != "" ==> nsDone(task.Deps[k])     [C08,C01]
+//@   loop 2 invariant forall k {task.Cmds[k]} :: 0 <= k && k < $i && task.Cmds[k] != nil && task.Cmds[k].Task != "" ==> nsDoneC(task.Cmds[k])   [C08,C14,C02]
 //@   site taskNameWithNamespace#4 requires arg0 == name && arg1 == include.Namespace         -- <namespace>:<task>      [C08]
 //@   site taskNameWithNamespace#5 requires arg0 == v.Task      -- <include alias>:<task>: the task's OWN name, not yet prefixed   [C15,C08]
 //@   site (*Vars).Merge#0 requires arg0 == task.IncludeVars && arg1 == include.Vars && arg0 != nil                      [C08,C10]
